@@ -642,6 +642,29 @@ func (w *weaver) pure(e ast.Expr) bool {
 	return false
 }
 
+// tracked reports whether the root of a selector/index chain is something
+// that can be shared: a package-level variable, a field, a captured local or
+// a pointer dereference.
+func (w *weaver) tracked(e ast.Expr) bool {
+	switch x := e.(type) {
+	case *ast.Ident:
+		v, ok := w.info().Uses[x].(*types.Var)
+		if !ok {
+			return false
+		}
+		return v.Parent() == w.pkg.Types.Scope() || w.captured[v]
+	case *ast.SelectorExpr:
+		return true
+	case *ast.StarExpr:
+		return true
+	case *ast.ParenExpr:
+		return w.tracked(x.X)
+	case *ast.IndexExpr:
+		return w.tracked(x.X)
+	}
+	return false
+}
+
 func (w *weaver) sliceName(e ast.Expr) (string, bool) {
 	t := w.info().TypeOf(e)
 	if t == nil {
@@ -1483,6 +1506,18 @@ func (w *weaver) collect(s ast.Stmt) []acc {
 		case *ast.IndexExpr:
 			if name, ok := w.sliceName(e.X); ok && w.pure(e.X) && w.pure(e.Index) {
 				out = append(out, acc{expr: e.X, idx: e.Index, cnt: intLit(1), text: w.exprText(e), name: name, write: write})
+			} else if t := w.info().TypeOf(e.X); t != nil && w.pure(e.X) && w.pure(e.Index) {
+				// element of an array variable (or of an array behind a pointer):
+				// the location is the element itself
+				at := t.Underlying()
+				if p, ok := at.(*types.Pointer); ok {
+					at = p.Elem().Underlying()
+				}
+				if arr, ok := at.(*types.Array); ok && !isSyncType(arr.Elem()) {
+					if tv, ok := w.info().Types[e]; ok && tv.Addressable() && w.tracked(e.X) {
+						out = append(out, acc{expr: e, text: w.exprText(e), name: types.TypeString(t, func(p *types.Package) string { return p.Name() }) + "[]", write: write})
+					}
+				}
 			}
 			if write {
 				if t := w.info().TypeOf(e.X); t != nil {
